@@ -206,7 +206,7 @@ def MakeID3v1(id3):
     if "TRCK" in id3:
         try:
             v1["track"] = bchr(+id3["TRCK"])
-        except ValueError:
+        except (ValueError, IndexError):
             v1["track"] = b"\x00"
     else:
         v1["track"] = b"\x00"
